@@ -174,7 +174,7 @@ int main(int argc, char** argv) {
     R.sample_every = 400;
     const bool T = true /* the wide lattices run in both tiers */; const bool D = R.thorough(); (void)D;
     part_zero(T ? std::vector<unsigned>{8, 16, 17, 32, 33} : std::vector<unsigned>{8, 9});
-    part_proto(T ? std::vector<unsigned>{8, 16, 17} : std::vector<unsigned>{8, 9}, T ? 12 : 7, T ? 8 : 6);
-    part_wave(T ? 300000 : 30000);
+    part_proto(T ? std::vector<unsigned>{8, 16, 17} : std::vector<unsigned>{8, 9}, D ? 14 : 12, D ? 10 : 8);
+    part_wave(D ? 3000000 : 300000);
     return R.finish();
 }
